@@ -231,6 +231,19 @@ def r09_2(ctx):
         ctx.check(f"constant condition {val} selects", bool(outs) and all(origin(lab(o.value)) == exp for o in outs), exp, str([lab(o.value) for o in outs]), fn_where(idx, fi))
     fi, outs = r.run("simplify_conditional_expr", lambda: [[r.pure("c"), r.pure("items[1]"), r.pure("items[2]")]], args_list=True)
     ctx.check("non-constant condition is not folded", [o.value for o in outs] == [None], "None", str([lab(o.value) for o in outs]), fn_where(idx, fi))
+    # a converted constant as condition: its truth is that of the CONVERTED value ((uint8_t)0x100 is 0) - folding by the literal below
+    # the cast selects the wrong arm; not folding at all is fine
+    for lit, ct, truth in ((0x100, (False, 8), False), (0x30000, (True, 16), False), (0x101, (False, 8), True), (0x100000000, (False, 32), False)):
+        r2 = Runner(idx, keep_real=("simplify_conditional_expr",))
+
+        def cargs(lit=lit, ct=ct):
+            inner = number(r2, "lit", lit, True, 64)
+            cast = AObj("Cast", {"ops": [inner], "value_type": mk_vt("tcast", ct[0], ct[1]), "name": "cast_1", "isa_name": None, "inlined": True, "reads": 0}, label="cast")
+            return [[cast, r2.pure("items[1]"), r2.pure("items[2]")]]
+        fi, outs = r2.run("simplify_conditional_expr", cargs, args_list=True)
+        sel = sorted({"not folded" if o.value is None else origin(lab(o.value)) if o.kind != "raise" else "RAISE" for o in outs})
+        okset = {"not folded", "RAISE", "items[1]" if truth else "items[2]"}
+        ctx.check(f"condition ({'u' if not ct[0] else 's'}{ct[1]}){hex(lit)}", bool(sel) and set(sel) <= okset, f"not folded, or the {'then' if truth else 'else'} arm", str(sel), fn_where(idx, fi))
 
 
 @rule("R09.7", "C09", "the run-time twin of the division folders is the C operation: the folders compute signed quotients and remainders for signed operands, so must the emitted opcode", min_instances=4)
@@ -391,6 +404,20 @@ def r09_5(ctx):
                 vals.add((ctor(o.value, "val"), t.fields.get("_signed"), t.fields.get("_bit_width")) if isinstance(t, AObj) else (ctor(o.value, "val"),))
         vals.discard("RAISE") if len(vals) > 1 else None
         ctx.check(f"number[{text}]", (exp, True, 32) in vals and all(v == (exp, True, 32) for v in vals if v != "RAISE"), str((exp, True, 32)), str(sorted(map(str, vals))), fn_where(idx, fi))
+    # a suffix the typing does not know is rejected, not typed as plain int (0xffffffffUL is not -1)
+    for suffix in ("UL", "ul", "LU"):
+        r = Runner(idx)
+        fi, outs = r.run("number", lambda suffix=suffix: [Tok("HEX_NUMBER", "0xffffffff"), Tok("INT_POST_TYPE", suffix)])
+        got = set()
+        for o in outs:
+            if o.kind == "raise":
+                got.add("rejected")
+            elif isinstance(o.value, AObj) and o.value.cls == "Number":
+                t = ctor(o.value, "v_type")
+                got.add("signed" if isinstance(t, AObj) and t.fields.get("_signed") else "unsigned")
+            else:
+                got.add(lab(o.value))
+        ctx.check(f"number[0xffffffff{suffix}]", bool(got) and got <= {"rejected", "unsigned"}, "rejected (or an unsigned type)", str(sorted(got)), fn_where(idx, fi))
     literal_rendering(ctx)
     number_token_classes(ctx)
 
